@@ -20,11 +20,14 @@ let batch = if Array.length Sys.argv > 1 then zs Sys.argv.(1) else zs "1000"
 let cap = if Array.length Sys.argv > 2 then zs Sys.argv.(2) else zs "20000"
 (* argv.(3) = "unfixed": the model of the code as found (before the C08 repairs) *)
 (* argv.(3) = "order": repaired, except that Rollback is still sensitive to the order of a block record *)
-(* argv.(3) = "chainlookup": repaired, except that removableTxForRemoveWallet still looks the owner of a spent output up on the node's chain *)
+(* argv.(3) = "chainlookup": repaired, except that removableTxForRemoveWallet still looks the owner of a spent output up on the node's chain;
+   argv.(3) = "notip": repaired, except that asyncImport commits whatever chain it read (no comparison of the
+   node's block at the batch's upper height with the synced one) *)
 let fx =
   if Array.length Sys.argv > 3 && Sys.argv.(3) = "unfixed" then as_found
   else if Array.length Sys.argv > 3 && Sys.argv.(3) = "order" then { repaired with f_rollback_order = false }
   else if Array.length Sys.argv > 3 && Sys.argv.(3) = "chainlookup" then { repaired with f_removable_debit = false }
+  else if Array.length Sys.argv > 3 && Sys.argv.(3) = "notip" then { repaired with f_import_tipcheck = false }
   else repaired
 
 let cls_of code param : oclass =
